@@ -29,6 +29,14 @@ func (e *Engine) havocLoop(fr *Frame, st *State, head *ssa.BasicBlock, phis []*s
 	}
 	seen := map[*ssa.Function]bool{}
 	e.collectWrites(fr, st, fr.fn, blocks, resolve, &targets, seen, 0)
+	if fr.con != nil {
+		// auxiliary ghosts assigned by `after` statements of this contract
+		for _, as := range fr.con.Afters {
+			if hasTag(as.Tags, e.curTags) {
+				targets = append(targets, writeTarget{ghost: as.Ghost})
+			}
+		}
+	}
 	e.symMode++
 	defer func() { e.symMode-- }()
 	for _, t := range targets {
